@@ -5,6 +5,7 @@
 #include <jose/b64.h>
 #include "hooks.h"
 #include "hx_io.h"
+#include <jose/jwe.h>
 
 /* ---- probe sink: records every call, fails on call number fail_at ---- */
 typedef struct {
@@ -141,7 +142,7 @@ hx_leaves_report(hx_leaves_t *L)
 
 /* ---- chain builder ----  desc: ["malloc"] | ["file"] | ["buffer",cap] | ["probe",failAt|null]
  *   | ["b64enc",next] | ["b64dec",next] | ["hash",name,next] | ["deflate",next] | ["inflate",next]
- *   | ["plex",all,[next...]]
+ *   | ["plex",all,[next...]] | ["jwedec",{jwe,cek},next]
  * Returns a new reference (NULL if a constructor refused). */
 jose_io_t *
 hx_build_chain(json_t *d, hx_leaves_t *L)
@@ -215,6 +216,10 @@ hx_build_chain(json_t *d, hx_leaves_t *L)
             const jose_hook_alg_t *a = jose_hook_alg_find(JOSE_HOOK_ALG_KIND_COMP, "DEF");
             if (a)
                 io = k[0] == 'd' ? a->comp.def(a, NULL, next) : a->comp.inf(a, NULL, next);
+        } else if (strcmp(k, "jwedec") == 0) {
+            /* ["jwedec", {jwe, cek}, next]: the content-decryption stream in front of any downstream chain */
+            json_t *a = json_array_get(d, 1);
+            io = jose_jwe_dec_cek_io(NULL, json_object_get(a, "jwe"), json_object_get(a, "cek"), next);
         }
         jose_io_decref(next);
         return keep(L, io);
